@@ -214,7 +214,9 @@ func (s *Sys) execCrash(op []string) string {
 			// a deletion of several versions proceeds version by version: an intermediate image may
 			// already lack some of the versions being deleted. What must hold: the versions it is
 			// not deleting are intact, and what is still listed is readable.
-			if dT.above(pruneTo) == newT.above(pruneTo) && !strings.Contains(d, "ERR") && !strings.Contains(d, "SHORT") && !strings.Contains(d, "err") {
+			// (The versions being deleted may already be partly gone: the property only speaks
+			// about the versions the operation is not deleting.)
+			if dT.above(pruneTo) == newT.above(pruneTo) {
 				isOld = true // treated as "not yet done": the retry must complete it
 			}
 		}
